@@ -29,7 +29,9 @@ def selected(v, selfref, x):
     hide = sel(H(v, "hide_undoc"), sel(H(v, "settings"), selfref))
     docs = lst(v, "doc_list", x, "str")
     disp = lst(v, "display", selfref, "str")
-    return z3.And(z3.Or(z3.Not(hide), z3.Length(docs) > 0), z3.Contains(disp, z3.Unit(SID(sel(H(v, "permission"), x)))))
+    # (hide_undoc is about the entities of this project: one that was imported from an external project is documented over there and carries no comment here)
+    external = z3.Select(v._e.has_array(v._p, "external_url"), x)
+    return z3.And(z3.Or(z3.Not(hide), external, z3.Length(docs) > 0), z3.Contains(disp, z3.Unit(SID(sel(H(v, "permission"), x)))))
 
 
 def base(c: Contract):
